@@ -284,6 +284,36 @@ func c17Profile(p byte, s uint64, d *c17Data) {
 		add("g", 1, c1, "")
 		add("g", 1, c2, "")
 		d.vals[c1], d.vals[c2] = -1, -1
+	// TopN-oriented profiles: tie-free inside every shard, DIFFERENT best rows per shard, and a row
+	// (f=3) that is nowhere the single best of a multi-row shard but wins globally — so the candidate
+	// set of the two-pass TopN(n) matters, and it must not depend on how shards are grouped onto nodes.
+	case 'E':
+		add("f", 1, c0, "")
+		add("f", 1, c1, "")
+		add("f", 1, c2, "")
+		add("g", 1, c0, "")
+		d.vals[c0] = 3
+	case 'F':
+		add("f", 3, c0, "")
+		add("f", 3, c1, "")
+		add("g", 2, c0, "")
+		d.vals[c1] = 2
+	case 'G':
+		add("f", 2, c0, "")
+		add("f", 2, c1, "")
+		add("f", 2, c2, "")
+		add("f", 3, c0, "")
+		add("f", 3, c1, "")
+		add("g", 1, c1, "")
+		d.vals[c0] = -1
+	case 'H':
+		add("f", 4, c0, "")
+		add("f", 4, c1, "")
+		add("f", 4, c2, "")
+		add("f", 3, c1, "")
+		add("f", 3, c2, "")
+		add("g", 1, c2, "")
+		d.vals[c2] = 2
 	}
 }
 
@@ -936,6 +966,10 @@ func c17Datasets(thorough bool) []*c17Data {
 			p := []byte{'A' + byte(x&3), 'A' + byte((x>>2)&3), 'A' + byte((x>>4)&3), 'A' + byte((x>>6)&3)}
 			out = append(out, c17MakeData(string(p), shards))
 		}
+		for x := 0; x < 256; x++ {
+			p := []byte{'E' + byte(x&3), 'E' + byte((x>>2)&3), 'E' + byte((x>>4)&3), 'E' + byte((x>>6)&3)}
+			out = append(out, c17MakeData(string(p), shards))
+		}
 		return out
 	}
 	// quick: every assignment of {A,B,C} to shards 0..2, shard 3 fixed to D
@@ -943,6 +977,21 @@ func c17Datasets(thorough bool) []*c17Data {
 		p := []byte{'A' + byte(x%3), 'A' + byte((x/3)%3), 'A' + byte((x/9)%3), 'D'}
 		out = append(out, c17MakeData(string(p), shards))
 	}
+	// and every permutation of the TopN-oriented profiles E,F,G,H over the four shards
+	perm := []byte("EFGH")
+	var rec func(k int)
+	rec = func(k int) {
+		if k == len(perm) {
+			out = append(out, c17MakeData(string(perm), shards))
+			return
+		}
+		for i := k; i < len(perm); i++ {
+			perm[k], perm[i] = perm[i], perm[k]
+			rec(k + 1)
+			perm[k], perm[i] = perm[i], perm[k]
+		}
+	}
+	rec(0)
 	return out
 }
 
